@@ -243,9 +243,9 @@ def run(tier):
     except common.AnalysisBroken as e:
         rep.break_(str(e)[:600])
         return rep
-    rep.need_instances("O12 obligations generated", len(rep.obligations), 250 if tier == "quick" else 500)
+    rep.need_instances("O12 obligations generated", len(rep.obligations), 800 if tier == "quick" else 1400)
     rep.trusted = ["clang 14 IR generation and -O2 pipeline (normaliser)", "vlib/viewspec.py + the projection table in checks/c12.py",
                    "vlib/poly.py + vlib/irval.py", "struct layouts S3{double x,y,z}, C2{double,double}, std::complex<double> (x86-64 ABI)"]
-    rep.assumptions = ["zero-based source views (layout_t::scale asserts offset==0); f(element) values of element_transformed and the element-wise "
+    rep.assumptions = ["source views with zero and with symbolic index bases (strided(t) composition: zero-based only); f(element) values of element_transformed and the element-wise "
                        "conversion loops of converting constructors are not decided here (the latter: engine A, R12.ctorext)"]
     return rep
